@@ -1,6 +1,8 @@
 package ast
 
 import (
+	"strings"
+
 	"github.com/dcaiafa/lox/internal/parsergen/lr1"
 )
 
@@ -21,6 +23,13 @@ func (r *ParserRule) RunPass(ctx *Context, pass Pass) {
 	switch pass {
 	case CreateNames:
 		ctx.HasParserRules = true
+		if strings.Contains(r.Name, "__") {
+			// "__" separates the rule name from the suffix in action method names.
+			ctx.Errs.Errorf(
+				ctx.Position(r),
+				"rule name cannot contain consecutive underscores: %v", r.Name)
+			return
+		}
 		if !ctx.RegisterName(r.Name, r) {
 			return
 		}
